@@ -347,7 +347,21 @@ def check_C08(tier, seed):
     return res.finish()
 
 
-CHECKS = {"C08": check_C08, "C09": check_C09, "C18": check_C18, "C04": check_C04, "C11": check_C11, "C01": check_C01, "C02": check_C02, "C16": check_C16, "C03": check_C03, "C12": check_C12, "C13": check_C13,
+def check_C20(tier, seed):
+    res = Result("C20", tier, seed, "model_checking")
+    binary = need_binary(res)
+    rng = random.Random(seed * 7919 + 20)
+    q = tier == "quick"
+    raw = os.path.join(C.OUT, "C20-vectors-raw.ndjson")
+    res.add_mc(run_mc("MC_Resolve", dict(EmitVec="TRUE", MaxDirs=2 if q else 3), workers=C.NCPU, vec_out=raw, timeout=6000, xmx="8g"))
+    run_pipeline(res, binary, "vec", vec_path=raw, validate=True, nshards=16, min_events=100)
+    os.remove(raw)
+    run_pipeline(res, binary, "random", gen_lines=gens.gen_resolve(rng, 3000 if q else 60000), nshards=12 if q else 16, min_events=100)
+    res.notes["rule"] = "vectors: 16 TZ values (empty, localtime, ':' forms, absolute, relative, padded, descriptions, names that are also descriptions) x directory lists (<= MaxDirs of 3 names incl. a relative one and repeats) x every {absent, valid, malformed, unreadable} assignment to the planned paths, with and without valid decoy files at every path a wrong reading would open; events: seeded longer directory lists, names with '/', doubled ':', surrounding whitespace; the recorded sequence of requested paths and the outcome are validated by TLC"
+    return res.finish()
+
+
+CHECKS = {"C20": check_C20, "C08": check_C08, "C09": check_C09, "C18": check_C18, "C04": check_C04, "C11": check_C11, "C01": check_C01, "C02": check_C02, "C16": check_C16, "C03": check_C03, "C12": check_C12, "C13": check_C13,
           "C05": lambda t, s: check_find("C05", t, s), "C06": lambda t, s: check_find("C06", t, s), "C17": lambda t, s: check_find("C17", t, s),
           "C14": check_C14}
 
